@@ -169,7 +169,12 @@ class Check:
     self.tier = tier
     self.seed = seed
     self.t0 = time.time()
-    self.work = ROOT / ".work" / pid
+    base = ROOT / ".work" / pid
+    base.mkdir(parents=True, exist_ok=True)
+    for d in base.iterdir():          # wipe scratch of finished runs only
+      if d.name.isdigit() and not os.path.exists(f"/proc/{d.name}"):
+        shutil.rmtree(d, ignore_errors=True)
+    self.work = base / str(os.getpid())
     shutil.rmtree(self.work, ignore_errors=True)
     self.work.mkdir(parents=True, exist_ok=True)
     self.violations = []       # (key, what, replay_path)
